@@ -496,7 +496,7 @@ def run(ctx):
     from symv.hooks import key_collision_hunt
 
     for _, rng in ctx.cases("key-collisions", ctx.budget(12, 120)):
-        r_ = ctx.run_case(key_collision_hunt, ctx, hooks, rng, ctx.n(60000, 300000))
+        r_ = ctx.run_case(key_collision_hunt, ctx, hooks, rng, ctx.n(200000, 600000))
         if r_:
             ctx.count("hunt", "cache-key-lookups", r_[0])
             ctx.count("hunt", "digest-collisions-found", r_[1])
